@@ -519,7 +519,9 @@ func parseContent(contentMap map[string]any) (Content, error) {
 		return parseTextContent(contentMap)
 	case "image":
 		return parseImageContent(contentMap)
-	case "resource":
+	case "audio":
+		return parseAudioContent(contentMap)
+	case "resource", ContentTypeEmbeddedResource:
 		return parseResourceContent(contentMap)
 	default:
 		return nil, fmt.Errorf("unsupported content type: %s", contentType)
@@ -528,21 +530,37 @@ func parseContent(contentMap map[string]any) (Content, error) {
 
 // parseTextContent parses text content
 func parseTextContent(contentMap map[string]any) (Content, error) {
-	text := extractString(contentMap, "text")
-	if text == "" {
+	text, ok := contentMap["text"].(string)
+	if !ok {
 		return nil, fmt.Errorf("text is missing")
 	}
-	return NewTextContent(text), nil
+	content := NewTextContent(text)
+	content.Annotated = parseAnnotated(contentMap)
+	return content, nil
 }
 
 // parseImageContent parses image content
 func parseImageContent(contentMap map[string]any) (Content, error) {
-	data := extractString(contentMap, "data")
-	mimeType := extractString(contentMap, "mimeType")
-	if data == "" || mimeType == "" {
+	data, okData := contentMap["data"].(string)
+	mimeType, okMimeType := contentMap["mimeType"].(string)
+	if !okData || !okMimeType {
 		return nil, fmt.Errorf("image data or mimeType is missing")
 	}
-	return NewImageContent(data, mimeType), nil
+	content := NewImageContent(data, mimeType)
+	content.Annotated = parseAnnotated(contentMap)
+	return content, nil
+}
+
+// parseAudioContent parses audio content
+func parseAudioContent(contentMap map[string]any) (Content, error) {
+	data, okData := contentMap["data"].(string)
+	mimeType, okMimeType := contentMap["mimeType"].(string)
+	if !okData || !okMimeType {
+		return nil, fmt.Errorf("audio data or mimeType is missing")
+	}
+	content := NewAudioContent(data, mimeType)
+	content.Annotated = parseAnnotated(contentMap)
+	return content, nil
 }
 
 // parseResourceContent parses resource content
@@ -555,7 +573,27 @@ func parseResourceContent(contentMap map[string]any) (Content, error) {
 	if err != nil {
 		return nil, err
 	}
-	return NewEmbeddedResource(resourceContents), nil
+	content := NewEmbeddedResource(resourceContents)
+	content.Annotated = parseAnnotated(contentMap)
+	return content, nil
+}
+
+// parseAnnotated decodes the optional "annotations" object of a content item.
+// An absent or malformed annotations object yields no annotations.
+func parseAnnotated(contentMap map[string]any) Annotated {
+	var annotated Annotated
+	annotationsMap := extractMap(contentMap, "annotations")
+	if annotationsMap == nil {
+		return annotated
+	}
+	raw, err := json.Marshal(map[string]any{"annotations": annotationsMap})
+	if err != nil {
+		return annotated
+	}
+	if err := json.Unmarshal(raw, &annotated); err != nil {
+		return Annotated{}
+	}
+	return annotated
 }
 
 // extractString extracts a string value from a map by key
@@ -579,14 +617,14 @@ func extractMap(data map[string]any, key string) map[string]any {
 }
 
 func parseResourceContents(contentMap map[string]any) (ResourceContents, error) {
-	uri := extractString(contentMap, "uri")
-	if uri == "" {
+	uri, ok := contentMap["uri"].(string)
+	if !ok {
 		return nil, fmt.Errorf("resource uri is missing")
 	}
 
 	mimeType := extractString(contentMap, "mimeType")
 
-	if text := extractString(contentMap, "text"); text != "" {
+	if text, ok := contentMap["text"].(string); ok {
 		return TextResourceContents{
 			URI:      uri,
 			MIMEType: mimeType,
@@ -594,7 +632,7 @@ func parseResourceContents(contentMap map[string]any) (ResourceContents, error) 
 		}, nil
 	}
 
-	if blob := extractString(contentMap, "blob"); blob != "" {
+	if blob, ok := contentMap["blob"].(string); ok {
 		return BlobResourceContents{
 			URI:      uri,
 			MIMEType: mimeType,
